@@ -174,6 +174,19 @@ func throughDisk(f *sfnt.Font) *sfnt.Font {
 
 func chooseWorld(t *tape.Tape) world {
 	w := chooseWorld0(t)
+	if t.Chance(1, 4) {
+		// kerning data of realistic size (3..12 KiB per subtable)
+		build, seed := w.build, t.Raw()
+		w.build = func() *sfnt.Font {
+			f := build()
+			if f.NumGlyphs() > 12 {
+				f.Gpos = simgen.MidGpos(tape.New(seed), f.NumGlyphs())
+			}
+			return f
+		}
+		w.name += "+kerning"
+		w.subsetOK = false
+	}
 	if t.Chance(1, 2) {
 		build := w.build
 		w.build = func() *sfnt.Font { return throughDisk(build()) }
@@ -197,8 +210,7 @@ func chooseWorld0(t *tape.Tape) world {
 		seed := t.Raw()
 		kind := simgen.Kind(t.Draw(3))
 		layout := t.Chance(2, 3)
-		bigKern := t.Chance(1, 3)
-		return world{"generated-" + kind.String() + map[bool]string{true: "+kerning", false: ""}[bigKern], func() *sfnt.Font {
+		return world{"generated-" + kind.String(), func() *sfnt.Font {
 			tt := tape.New(seed)
 			f := simgen.GenFont(tt, kind, 1)
 			if f.CMapTable == nil {
@@ -212,11 +224,6 @@ func chooseWorld0(t *tape.Tape) world {
 			}
 			if layout {
 				simgen.AddLayoutTables(tt, f)
-			}
-			if bigKern && f.NumGlyphs() > 12 {
-				// a pair adjustment subtable of several KiB (the size
-				// of real kerning data; generated lookups are tiny)
-				f.Gpos = simgen.MidGpos(tt, f.NumGlyphs())
 			}
 			return f
 		}, !layout}
@@ -242,7 +249,7 @@ func run(c *wk.Case) {
 	}
 	// "stampede": many goroutines do the same thing to the same font at the
 	// same time (a server writing one font for many requests)
-	stampede := t.Chance(1, 6)
+	stampede := t.Chance(1, 5)
 	var stampOp op
 	if stampede {
 		n = t.Range(8, 16)
